@@ -19,10 +19,7 @@ def content_bytes(c):
         return bytes.fromhex(c["hex"])
     n = c.get("len", 0)
     if "uniq" in c:
-        seed = ("uniq:" + c["uniq"]).encode()
-        head = seed + b"|"
-        body = hashlib.shake_128(seed).digest(max(0, n - len(head)))
-        return (head + body)[:n] if n else b""
+        return hashlib.shake_128(("uniq:" + c["uniq"]).encode()).digest(n)
     data = bytearray(hashlib.shake_128(b"fam:%d" % c.get("fam", 0)).digest(n))
     if c.get("text"):
         # printable variant (for transforms that are line/character oriented)
